@@ -299,20 +299,21 @@ SupportInfo(P, mask) ==
       determined |-> \A i \in 1..n : \A j \in i..n : between(2 * i, 2 * (j + k)) >= j - i + 1,
       (* every cell of the mask holds a datum (on its closed extent) *)
       cells |-> \A c \in k..(M - k) : between(2 * c - 1, 2 * c + 3) >= 1,
-      (* the cells of the mask (by the rank of their left knot) that hold no datum at all: the gaps *)
-      empty |-> {c \in k..(M - k) : between(2 * c - 1, 2 * c + 3) = 0}]
+      (* the basis functions that see no datum: where the gaps are *)
+      untouched |-> {j \in 1..n : between(2 * j, 2 * (j + k)) = 0}]
 Touched(P, mask) == SupportInfo(P, mask).touched
 Determined(P, mask) == SupportInfo(P, mask).determined
 TotalData(P) == ISum(P.pc)
 
 (* Which breakpoints a -1 may drop.  "Reported through the breakpoint mask": while some basis function *)
-(* sees no datum the report is about the gap - only good interior breakpoints within max(1, nord div 2) *)
-(* knots of a cell without data (its two bounding knots included) may go; a breakpoint the data of THIS *)
-(* call fully support, away from every gap, may not.  When every basis function sees data but they are  *)
-(* too few to determine all coefficients there need not be a gap, and any interior breakpoint may go.   *)
+(* sees no datum the report is about that gap - only good interior breakpoints that are knots of the    *)
+(* support of such a function, or within max(1, nord div 2) knots of it, may go; a breakpoint the data   *)
+(* of THIS call fully support, away from every gap, may not.  When every basis function sees data but   *)
+(* they are too few to determine all coefficients there need not be a gap, and any interior breakpoint  *)
+(* may go.                                                                                              *)
 DropMargin(P) == IMax(1, P.nord \div 2)
 NearGap(P, mask, si) == {g \in mask \cap Interior(P) :
-                          \E c \in si.empty : RankIn(mask, g) \in (c - DropMargin(P))..(c + 1 + DropMargin(P))}
+                          \E j \in si.untouched : RankIn(mask, g) \in (j - DropMargin(P))..(j + P.nord + DropMargin(P))}
 Droppable(P, mask) == LET si == SupportInfo(P, mask) IN
                       IF si.touched THEN mask \cap Interior(P) ELSE NearGap(P, mask, si)
 
@@ -411,7 +412,7 @@ MNext == \/ FitOK
 (* and the knots a -1 may drop                                                                      *)
 FitClass(P, mask) ==
   LET few == Cardinality(mask) < 2 * P.nord
-      si == IF few THEN [touched |-> FALSE, determined |-> FALSE, cells |-> FALSE, empty |-> {}] ELSE SupportInfo(P, mask)
+      si == IF few THEN [touched |-> FALSE, determined |-> FALSE, cells |-> FALSE, untouched |-> {}] ELSE SupportInfo(P, mask)
       ws == si.determined /\ si.cells
       dr == IF few THEN {} ELSE IF si.touched THEN mask \cap Interior(P) ELSE NearGap(P, mask, si)
   IN [allowed |-> (IF ~few /\ si.touched THEN {0} ELSE {})
